@@ -61,7 +61,7 @@ Pay == [ P0 |-> "", Pa |-> "a", Pab |-> "ab", Pba |-> "ba", Pabc |-> "abc", Ppct
          I2047 |-> "ab" \o X(2045), I2048 |-> "ab" \o X(2046),
          S3 |-> "xxx", S4 |-> "xxxx", S5 |-> "xxxxx", S7 |-> "abaabab", S8 |-> "abaababa" ]
 PayNames == DOMAIN Pay
-Chr == [ c97 |-> "a", c120 |-> "x", c37 |-> "%", c0 |-> "" ]      \* c0: a NUL character is documented as a no-op
+Chr == [ c97 |-> "a", c120 |-> "x", c37 |-> "%", c0 |-> "", c233 |-> "Q", c255 |-> "Z" ]      \* c0: a NUL character is documented as a no-op; Q / Z stand for the bytes 0xE9 / 0xFF (renamed by the check on both sides)
 Fmt(kind, arg) == IF kind = "d" THEN ToString(arg) ELSE "<" \o Pay[arg] \o ">"
 
 \* ---- one step: op record -> new string ------------------------------------------------------
